@@ -881,6 +881,11 @@ func runPipeline(c *simrun.Ctx) *simrun.Violation {
 	}
 	newRaceReports()
 	sched.Run()
+	if sched.Abandoned {
+		st.Add("runs_abandoned_lock_held_across_a_yield_point", 1)
+		newRaceReports()
+		return nil
+	}
 	st.Add("simulations", 1)
 	st.Add("scheduler_steps", int64(sched.Steps))
 	st.Add("fault_context_switches", int64(sched.Switches))
